@@ -882,6 +882,29 @@ def m_minmax(c):
         st.set_iv(t, lo, hi)
         st.add_le(a, me, 0)
         st.add_le(b, me, 0)
+    # bounds shared by both operands carry over:  max(a, b) <= T + c  iff  a <= T + c and b <= T + c   (dually for min)
+    cands = set()
+    for (x, y) in list(st.rel.keys()):
+        for v in (a, b):
+            if v[0] == "n" and v[1] is not None:
+                if is_min and y == v[1]:
+                    cands.add(x)
+                if not is_min and x == v[1]:
+                    cands.add(y)
+    for T in cands:
+        if T == t:
+            continue
+        tv = ("n", T, 0)
+        if is_min:
+            da = st.bound_diff(T, a[1] if a[0] == "n" else None) if a[0] == "n" else None
+            db = st.bound_diff(T, b[1] if b[0] == "n" else None) if b[0] == "n" else None
+            if da is not None and db is not None:
+                st.add_le(tv, me, max(da - a[2], db - b[2]))
+        else:
+            da = st.bound_diff(a[1], T) if a[0] == "n" else None
+            db = st.bound_diff(b[1], T) if b[0] == "n" else None
+            if da is not None and db is not None:
+                st.add_le(me, tv, max(da + a[2], db + b[2]))
     return "stored"
 
 
@@ -1369,7 +1392,8 @@ def m_iter_consume(c):
 
 
 def forget_closure_captures(c, i):
-    """a closure that captured `&mut place` may write the place when called (narrowed by its mod summary)"""
+    """a closure that captured `&mut place` may write the place when called (narrowed by its mod summary); contract clauses
+    of the closure body that hold before the call hold after it (the closure is run zero or more times)"""
     op = c.t["args"][i]
     pj = op.get("copy") or op.get("move")
     if pj is None:
@@ -1381,21 +1405,66 @@ def forget_closure_captures(c, i):
     names = None
     ip = c.an.interproc
     tix = c.args[i][1]
+    cdef = None
     if ip is not None and tix is not None and c.an.T[tix]["k"] == "closure":
-        m = ip.mod.get(c.an.T[tix]["def"])
+        cdef = c.an.T[tix]["def"]
+        m = ip.mod.get(cdef)
         if m is not None and not m.wild and not m.roots:
             names = m.names
+    held = []
+    if ip is not None and cdef is not None and ip.entry_assume is not None and cdef in c.an.f.bodies:
+        s = ip.summary(cdef)
+        cl = getattr(s, "clauses", None) if s is not None else None
+        if cl:
+            cb = c.an.f.bodies[cdef]
+            env_ref = cb.tys(1).startswith("&")
+
+            def inst(v):
+                if v[0] != "n" or v[1] is None:
+                    return v
+                kind, root, steps = v[1]
+                if root != 1:
+                    return None
+                st2 = steps[1:] if env_ref else steps
+                if not st2:
+                    return None
+                cap = c.st.sym.get((base[0], base[1] + (st2[0],)))
+                rest = st2[1:]
+                if cap is None or cap[0] != "ref" or cap[1] is None or isinstance(cap[1], str) or rest[:1] != ("*",):
+                    return None
+                pl = (cap[1], cap[2] + rest[1:])
+                sv = c.st.sym.get(pl)
+                if sv is not None and sv[0] in ("n", "iv") and kind == "v":
+                    return ("n", sv[1], sv[2] + v[2]) if sv[0] == "n" else None
+                return ("n", (kind, pl[0], pl[1]), v[2])
+            for name, cons in cl.items():
+                insts = []
+                ok = True
+                for (a, b, d) in cons:
+                    a2, b2 = inst(a), inst(b)
+                    if a2 is None or b2 is None:
+                        ok = False
+                        break
+                    # field invariants for dimension terms
+                    for v in (a2, b2):
+                        if v[0] == "n" and v[1] is not None and v[1][2][-2:] in (("size", "width"), ("size", "height")) and c.an.invariants:
+                            c.st.set_iv(v[1], 1, None)
+                    if not c.st.prove_le(a2, b2, d):
+                        ok = False
+                        break
+                    insts.append((a2, b2, d))
+                if ok:
+                    held.append(insts)
     for p, v in list(c.st.sym.items()):
         if p[0] == base[0] and p[1][:len(base[1])] == base[1] and v[0] == "ref" and v[1] is not None and not isinstance(v[1], str):
             if names is None:
                 c.st.kill_under((v[1], v[2]))
             elif names:
                 c.st.kill_under((v[1], v[2]), names)
-
-
-@model(r"^<(bool|char|u8|u16|u32|u64|usize|i8|i16|i32|i64|isize) as std::default::Default>::default$")
-def m_scalar_default(c):
-    return ("n", None, 0)
+    for insts in held:
+        for (a2, b2, d) in insts:
+            a3 = a2 if (a2[0] != "n" or a2[1] is None) else ("n", a2[1], a2[2])
+            c.st.add_le(a2, b2, d)
 
 
 # =========================================================================== misc pure / formatting: no effect on tracked state
